@@ -84,13 +84,15 @@ Resume ==
   /\ UNCHANGED <<now, cache, have, c0, atBegin, last, envDone, hist>>
 
 (* one response datagram carrying the records S; srvFirst tells whether SRV precedes the address record in it.  The info
-   object is handed the records one by one *before* they are in the cache: an address is taken over only when the host is
-   already known, and a new SRV loads the addresses the cache held before this datagram *)
+   object is handed the records *before* they are in the cache: an address is taken over only when the host is known, and a
+   new SRV loads the addresses the cache held before this datagram.  Until fix D19 the records were looked at in datagram
+   order, so an address listed before its SRV was lost to the lookup (found as a C07 violation between two real instances);
+   now the SRV records of a datagram come first and the order no longer matters. *)
 Taken(S, srvFirst) ==
   LET t1 == have \cup (S \cap {"txt"})
       srvNew == "srv" \in S
       aNew == "a" \in S
-      hostKnownForA == "srv" \in have \/ (srvNew /\ srvFirst)
+      hostKnownForA == "srv" \in have \/ srvNew      \* since fix D19 the SRV records of a datagram are looked at first (srvFirst no longer matters)
   IN t1 \cup (IF srvNew THEN {"srv"} ELSE {})
         \cup (IF aNew /\ hostKnownForA THEN {"a"} ELSE {})
         \cup (IF srvNew /\ "srv" \notin have /\ "a" \in cache THEN {"a"} ELSE {})
